@@ -108,6 +108,10 @@ Proof.
       rewrite qc_plain; [exact IH|apply Z.eqb_neq; lia|apply Z.eqb_neq; lia|apply Z.eqb_neq; lia].
 Qed.
 
+Lemma quoted_string_roundtrip_proof x : Forall is_octet x ->
+  tok_unescape (escapify_q x) = Ok x /\ q_clean (escapify_q x) = true.
+Proof. intros H. split; [apply unescape_escapify|apply escapify_q_clean]; exact H. Qed.
+
 (* ---------- fields ---------- *)
 Section Fields.
   Variable rel : bool.
